@@ -202,6 +202,33 @@ func (c *Ctx) rulesC04(a *coreAnchors, la *LockAnalysis) {
 		}
 		c.check(n >= 1, "C04.fifo", "queueMutation assigns a queue tick", a.queueMutation.Pos(), "no store to Mutation.QueueTick")
 	}
+	// the atomic length mirror follows every queue write in the same critical section
+	c.rule("C04.len", "every write of Machine.queue is followed, before queueMx is released, by queueLen.Store: the lock-free length that gates processQueue and the queue limit never diverges from len(queue)")
+	nl := 0
+	for _, w := range c.writesOfField(a.fQueue) {
+		if funcKey(w.Fn) == pm+":New" {
+			continue
+		}
+		nl++
+		okm := false
+		blk := w.Instr.Block()
+		idx := instrIndex(w.Instr)
+		for i := idx + 1; i < len(blk.Instrs); i++ {
+			call, ok := blk.Instrs[i].(*ssa.Call)
+			if !ok {
+				continue
+			}
+			if id, op := lockOp(&call.Call); id == lkQueueMx && op == "Unlock" {
+				break
+			}
+			if calleeName(&call.Call) == "Store" && len(call.Call.Args) == 2 && fieldOf(call.Call.Args[0]) == a.fQueueLen {
+				okm = true
+				break
+			}
+		}
+		c.check(okm, "C04.len", fmt.Sprintf("%s updates queueLen after writing the queue%s", funcKey(w.Fn), nth(nl-1)), w.Instr.Pos(), "queue written without refreshing queueLen in the same critical section: processQueue may skip a non-empty queue or spin on an empty one")
+	}
+	c.floor("C04.len", 4)
 	c.floor("C04.fifo", 9)
 
 	// C04.rel
